@@ -197,7 +197,15 @@ func (e *env) genC07() *nmOp {
 			e.b.Hit("node-announced-without-addresses")
 		}
 		attrs := map[string]string{"Capacity": fmt.Sprint(e.ver), "ver": fmt.Sprint(e.ver)}
-		o := &nmOp{kind: "addNode", args: []any{node2Item(addrs, attrs, key, state)}, signers: s, sdesc: sd, class: fmt.Sprintf("%s/st%d/len%d", e.presence(ph), state, len(key))}
+		item := node2Item(addrs, attrs, key, state)
+		if r.IntN(8) == 0 {
+			// the structure as a later client might send it: one more field behind the state (seeded change C07-10: the
+			// state patched into the last byte of the stored record)
+			st := item.(*stackitem.Struct)
+			st.Append(stackitem.Make("v2"))
+			e.b.Hit("node-announced-with-a-trailing-field")
+		}
+		o := &nmOp{kind: "addNode", args: []any{item}, signers: s, sdesc: sd, class: fmt.Sprintf("%s/st%d/len%d", e.presence(ph), state, len(key))}
 		if nw && aw && state == 1 && len(key) == 33 {
 			o.expect = expEffect
 			o.apply = func(m *model) { m.v2[ph] = v2Cand{addrs: addrs, attrs: attrs, key: key, state: 1} }
@@ -442,7 +450,7 @@ func (e *env) resyncCandidates() {
 				continue
 			}
 			f := world.Arr(it)
-			if len(f) == 4 {
+			if len(f) >= 4 {
 				var addrs []string
 				for _, a := range world.Arr(f[0]) {
 					addrs = append(addrs, string(world.Bytes(a)))
